@@ -2593,11 +2593,305 @@ child_reset(void)
 		unsetenv(names[i]);
 }
 
+/*
+ * What the child of fork() does before it becomes another program.
+ *
+ * The parent's trace line of a fork carries what the CHILD really hands to
+ * exec and which descriptor it made its standard input:
+ *
+ *     k fork fn=execvp file=F stdin=N argc=C a0=A0 a1=A1 ... = childpid
+ *
+ * fork() opens a close-on-exec pipe first. The child keeps the write end
+ * (g_report_fd): its dup2()/dup3() wrappers remember the source of the last
+ * duplication onto descriptor 0, and its exec wrappers write one record
+ * (function, file, argument vector, that source - checked against descriptor
+ * 0 with kcmp(2), or by device and inode where kcmp is not available) and
+ * then call the real function; a successful exec closes the pipe. The parent
+ * reads the pipe to its end - so fork() returns in the parent once the child
+ * has called exec or has exited - and writes the first record into its line
+ * (`execs=N` is added when the child called exec N != 1 times, `noexec=1`
+ * when it never did). `stdin=0`: the child duplicated nothing onto 0 (it keeps
+ * the parent's standard input); `stdin=-2`: descriptor 0 is not what was
+ * duplicated last.
+ *
+ * An injected fork() failure runs a ghost child: the process is forked all the
+ * same, the child runs up to its first exec call, reports it and _exit(0)s
+ * instead of executing anything; the parent reaps it and returns -1 with the
+ * injected errno. The trace so also shows what the child of a failed fork()
+ * WOULD have run (`... = -1 errno=EAGAIN FAULT`). Without a log nothing of
+ * this happens (no pipe, no ghost).
+ */
+DECL_REAL(int, dup2, int, int);
+DECL_REAL(int, dup3, int, int, int);
+DECL_REAL(int, execvp, const char *, char *const *);
+DECL_REAL(int, execv, const char *, char *const *);
+DECL_REAL(int, execve, const char *, char *const *, char *const *);
+DECL_REAL(int, execvpe, const char *, char *const *, char *const *);
+
+#ifndef KCMP_FILE
+#define KCMP_FILE 0
+#endif
+
+static int g_report_fd = -1;	/* forked child: write end of the report pipe */
+static int g_ghost;		/* forked child of an injected fork() failure */
+static int g_child_stdin;	/* forked child: source of the last dup onto 0 */
+
+struct dbuf {
+	char	*p;
+	size_t	 n, cap;
+};
+
+static void
+db_put(struct dbuf *b, const char *s, size_t len)
+{
+	if (b->n + len + 1 > b->cap) {
+		size_t cap = b->cap ? b->cap : 256;
+		char *q;
+
+		while (b->n + len + 1 > cap)
+			cap *= 2;
+		q = realloc(b->p, cap);
+		if (q == NULL)
+			config_error("out of memory", NULL);
+		b->p = q;
+		b->cap = cap;
+	}
+	memcpy(b->p + b->n, s, len);
+	b->n += len;
+	b->p[b->n] = '\0';
+}
+
+static void
+db_puts(struct dbuf *b, const char *s)
+{
+	db_put(b, s, strlen(s));
+}
+
+static void
+db_long(struct dbuf *b, long long v)
+{
+	char tmp[32];
+
+	snprintf(tmp, sizeof(tmp), "%lld", v);
+	db_puts(b, tmp);
+}
+
+/* Same escaping as lb_esc(). */
+static void
+db_esc(struct dbuf *b, const char *s)
+{
+	static const char hex[] = "0123456789abcdef";
+
+	if (s == NULL) {
+		db_puts(b, "(null)");
+		return;
+	}
+	for (; *s; s++) {
+		unsigned char c = (unsigned char)*s;
+		char tmp[4];
+
+		if (c == '\\') {
+			db_put(b, "\\\\", 2);
+		} else if (c <= 0x20 || c >= 0x7f) {
+			tmp[0] = '\\';
+			tmp[1] = 'x';
+			tmp[2] = hex[c >> 4];
+			tmp[3] = hex[c & 0xf];
+			db_put(b, tmp, 4);
+		} else {
+			db_put(b, (const char *)&c, 1);
+		}
+	}
+}
+
+/* Which descriptor of the child is its descriptor 0 a duplicate of? */
+static int
+child_stdin(void)
+{
+	struct stat a, b;
+	long r;
+	int fd = g_child_stdin;
+
+	if (fd == 0)
+		return 0;
+	r = syscall(SYS_kcmp, real_pid(), real_pid(), KCMP_FILE, 0L, (long)fd);
+	if (r == 0)
+		return fd;
+	if (r > 0)
+		return -2;
+	if (fstat(0, &a) == 0 && fstat(fd, &b) == 0 &&
+	    a.st_dev == b.st_dev && a.st_ino == b.st_ino)
+		return fd;
+	return -2;
+}
+
+static void
+child_report(const char *fn, const char *file, char *const *argv)
+{
+	struct dbuf d = { NULL, 0, 0 };
+	int argc = 0, i;
+	int e = errno;
+
+	if (g_report_fd < 0)
+		return;
+	while (argv != NULL && argv[argc] != NULL)
+		argc++;
+	db_puts(&d, "fn=");
+	db_puts(&d, fn);
+	db_puts(&d, " file=");
+	db_esc(&d, file);
+	db_puts(&d, " stdin=");
+	db_long(&d, child_stdin());
+	db_puts(&d, " argc=");
+	db_long(&d, argc);
+	for (i = 0; i < argc; i++) {
+		db_puts(&d, " a");
+		db_long(&d, i);
+		db_puts(&d, "=");
+		db_esc(&d, argv[i]);
+	}
+	db_puts(&d, "\n");
+	raw_write(g_report_fd, d.p, d.n);
+	free(d.p);
+	if (g_ghost)
+		_exit(0);
+	errno = e;
+}
+
+int
+dup2(int oldfd, int newfd)
+{
+	int r;
+
+	REAL(dup2);
+	r = real_dup2(oldfd, newfd);
+	if (g_report_fd >= 0 && r == 0 && newfd == 0)
+		g_child_stdin = oldfd;
+	return r;
+}
+
+int
+dup3(int oldfd, int newfd, int flags)
+{
+	int r;
+
+	REAL(dup3);
+	r = real_dup3(oldfd, newfd, flags);
+	if (g_report_fd >= 0 && r == 0 && newfd == 0)
+		g_child_stdin = oldfd;
+	return r;
+}
+
+int
+execvp(const char *file, char *const argv[])
+{
+	REAL(execvp);
+	child_report("execvp", file, argv);
+	return real_execvp(file, argv);
+}
+
+int
+execv(const char *path, char *const argv[])
+{
+	REAL(execv);
+	child_report("execv", path, argv);
+	return real_execv(path, argv);
+}
+
+int
+execve(const char *path, char *const argv[], char *const envp[])
+{
+	REAL(execve);
+	child_report("execve", path, argv);
+	return real_execve(path, argv, envp);
+}
+
+int
+execvpe(const char *file, char *const argv[], char *const envp[])
+{
+	REAL(execvpe);
+	child_report("execvpe", file, argv);
+	return real_execvpe(file, argv, envp);
+}
+
+/* execl(), execlp(), execle(): the vector is collected first. */
+static char **
+collect_args(const char *arg0, va_list ap, char *const **envp)
+{
+	va_list aq;
+	char **argv;
+	size_t n = 1, i;
+
+	va_copy(aq, ap);
+	if (arg0 != NULL)
+		while (va_arg(aq, char *) != NULL)
+			n++;
+	va_end(aq);
+	argv = malloc((n + 1) * sizeof(*argv));
+	if (argv == NULL)
+		config_error("out of memory", NULL);
+	argv[0] = (char *)arg0;
+	for (i = 1; i < n; i++)
+		argv[i] = va_arg(ap, char *);
+	argv[arg0 != NULL ? n : 0] = NULL;
+	if (arg0 != NULL)
+		(void)va_arg(ap, char *);	/* the terminating NULL */
+	if (envp != NULL)
+		*envp = va_arg(ap, char *const *);
+	return argv;
+}
+
+int
+execl(const char *path, const char *arg0, ...)
+{
+	va_list ap;
+	char **argv;
+
+	va_start(ap, arg0);
+	argv = collect_args(arg0, ap, NULL);
+	va_end(ap);
+	REAL(execv);
+	child_report("execl", path, argv);
+	return real_execv(path, argv);
+}
+
+int
+execlp(const char *file, const char *arg0, ...)
+{
+	va_list ap;
+	char **argv;
+
+	va_start(ap, arg0);
+	argv = collect_args(arg0, ap, NULL);
+	va_end(ap);
+	REAL(execvp);
+	child_report("execlp", file, argv);
+	return real_execvp(file, argv);
+}
+
+int
+execle(const char *path, const char *arg0, ...)
+{
+	va_list ap;
+	char **argv;
+	char *const *envp = NULL;
+
+	va_start(ap, arg0);
+	argv = collect_args(arg0, ap, &envp);
+	va_end(ap);
+	REAL(execve);
+	child_report("execle", path, argv);
+	return real_execve(path, argv, envp);
+}
+
 pid_t
 fork(void)
 {
 	struct call c;
+	struct dbuf rec = { NULL, 0, 0 };
 	int e0 = errno;
+	int rp[2] = { -1, -1 };
+	int report, ghost;
 	pid_t r;
 	int e;
 
@@ -2608,7 +2902,11 @@ fork(void)
 	}
 
 	pre(&c, "fork");
-	if (c.kind == F_ERRNO) {
+	report = logging();
+	if (report && pipe2(rp, O_CLOEXEC) == -1)
+		report = 0;
+	ghost = report && c.kind == F_ERRNO;
+	if (c.kind == F_ERRNO && !ghost) {
 		r = -1;
 		e = c.err;
 		c.faulted = 1;
@@ -2618,23 +2916,90 @@ fork(void)
 		e = errno;
 		if (r == 0) {
 			child_reset();
+			if (report) {
+				REAL(close);
+				real_close(rp[0]);
+				g_report_fd = rp[1];
+				g_ghost = ghost;
+				g_child_stdin = 0;
+			}
 			errno = e;
 			return 0;
 		}
-		if (r > 0 && g_nchild < MAXCHILD)
+		if (report) {
+			char buf[4096];
+			ssize_t n;
+
+			REAL(close);
+			REAL(read);
+			real_close(rp[1]);
+			while (r > 0) {
+				n = real_read(rp[0], buf, sizeof(buf));
+				if (n == -1 && errno == EINTR)
+					continue;
+				if (n <= 0)
+					break;
+				db_put(&rec, buf, (size_t)n);
+			}
+			real_close(rp[0]);
+		}
+		if (ghost) {
+			if (r > 0) {
+				REAL(waitpid);
+				while (real_waitpid(r, NULL, 0) == -1 &&
+				    errno == EINTR)
+					continue;
+			}
+			r = -1;
+			e = c.err;
+			c.faulted = 1;
+		} else if (r > 0 && g_nchild < MAXCHILD) {
 			g_child[g_nchild++] = r;
+		}
 	}
 	if (logging()) {
+		struct dbuf d = { NULL, 0, 0 };
 		struct lb l;
+		size_t nrec = 0, first = 0, i;
 
-		lb_begin(&l, &c);
-		lb_puts(&l, " = ");
+		/* the first record of the child, and how many it wrote */
+		for (i = 0; i < rec.n; i++) {
+			if (rec.p[i] == '\n') {
+				if (nrec == 0)
+					first = i;
+				nrec++;
+			}
+		}
+		db_long(&d, c.k);
+		db_puts(&d, " fork");
+		if (report) {
+			if (nrec == 0) {
+				db_puts(&d, " noexec=1");
+			} else {
+				db_puts(&d, " ");
+				db_put(&d, rec.p, first);
+				if (nrec != 1) {
+					db_puts(&d, " execs=");
+					db_long(&d, (long long)nrec);
+				}
+			}
+		}
+		db_puts(&d, " = ");
+		l.n = 0;
 		if (r == -1)
 			lb_errno(&l, e);
 		else
 			lb_pid(&l, r);
-		lb_end(&l, &c);
+		db_put(&d, l.b, l.n);
+		if (c.faulted)
+			db_puts(&d, " FAULT");
+		db_puts(&d, "\n");
+		fsize_set(0);
+		raw_write(g_logfd, d.p, d.n);
+		fsize_set(1);
+		free(d.p);
 	}
+	free(rec.p);
 	errno = e;
 	return r;
 }
